@@ -395,7 +395,14 @@ def _gen_on_stub(method, opcode):
     st._runtime_call = lambda name, args=(): st.emit(("runtime-call", name))
     if opcode.endswith("eqz"):
         st.stack.pop()                      # one operand only (named a)
-    getattr(st, method)(components.Instruction(opcode))
+    try:
+        getattr(st, method)(components.Instruction(opcode))
+    except AttributeError as ex:
+        if "Stub" in str(ex):
+            # the generator reads compiler state this recording stub does not model: the contract cannot judge the new
+            # code (undecided, never a violation); the bounded end-to-end stand-in still exercises it
+            raise Undecided("contract stale: %s uses compiler state the stub does not model (%s)" % (method, ex))
+        raise
     if len(st.stack) != 1:
         raise AssertionError("%s left %d values on the stack" % (opcode, len(st.stack)))
     _STUBS[id(st.stack[0])] = st
